@@ -73,7 +73,11 @@ def gen_case(rs, tier):
         return None
     weighted = {(f["id"], n) for f in ast["factors"] if f["kind"] == "basic" for n, w in f["levels"] if w > 1}
     if not weighted:
-        return None
+        # the generator put no weight anywhere: give one level of one basic factor weight 2 or 3
+        f = rng.choice([f for f in ast["factors"] if f["kind"] == "basic"])
+        lv = rng.choice(f["levels"])
+        lv[1] = rng.choice([2, 2, 3])
+        weighted = {(f["id"], lv[0])}
     wf = {fid for fid, _ in weighted}
     # derived-level weights are a different mechanism: keep them at 1 here
     for f in ast["factors"]:
